@@ -39,6 +39,9 @@ Qed.
 Lemma token_texts_ok l : forallb token_textb l = true -> Forall token_text l.
 Proof. intros H. apply Forall_forall. intros x Hx. apply token_textb_sound. rewrite forallb_forall in H. apply H, Hx. Qed.
 
+Lemma list_depths l n : S (fold_right (fun x m => Nat.max (gdepth x) m) 0 l) <= S n -> Forall (fun g => gdepth g <= n) l.
+Proof. intros H. apply Forall_forall. intros x Hx. pose proof (fold_max_le gdepth l x Hx). lia. Qed.
+
 Section Text.
   Variable ftab : list fentry.
   Variable names : list bytes.
@@ -177,9 +180,6 @@ Section Text.
       Qed.
     End Lists.
 
-    Lemma list_depths l n : S (fold_right (fun x m => Nat.max (gdepth x) m) 0 l) <= S n -> Forall (fun g => gdepth g <= n) l.
-    Proof. intros H. apply Forall_forall. intros x Hx. pose proof (fold_max_le gdepth l x Hx). lia. Qed.
-
     Lemma wi_units : forall n ty g k o, n <= S f -> conf ty g k -> gdepth g <= n -> extends_by (ftoks g) o (wi n g o).
     Proof.
       induction n as [|n IH]; intros ty g k o Hn Hconf Hd; [pose proof (gdepth_pos g); lia|].
@@ -226,6 +226,104 @@ Section Text.
     apply Fin. cbn [gdepth IfdataFollowProofs.ftoks] in *.
     apply (seq_units f indent (S f) (fun ty g k o C D => W (S f) ty g k o (le_n _) C D) tys items k Hall).
     apply Forall_forall. intros x Hx. pose proof (fold_max_le gdepth items x Hx). lia.
+  Qed.
+
+  (* ---------- the token texts of a conforming value are well-formed when the names of the definition are ---------- *)
+  (* every tag and every enumeration item of the definition is an identifier *)
+  Fixpoint def_ok (ty : a2mlty) : Prop :=
+    match ty with
+    | TArray i _ | TSequence i => def_ok i
+    | TEnum items => Forall (fun p => ident_text (fst p)) items
+    | TStruct l => fold_right (fun t P => def_ok t /\ P) True l
+    | TTaggedStruct l | TTaggedUnion l =>
+        fold_right (fun t P => match t with Tagged tag _ _ i => ident_text tag /\ def_ok i end /\ P) True l
+    | _ => True
+    end.
+  (* the float texts of the oracle table are number tokens *)
+  Definition floats_wf : Prop :=
+    forall bits, float_ok ftab bits = true \/ double_ok ftab bits = true -> number_text (float_text ftab bits).
+
+  Lemma Forall_flat_map {A B} (P : B -> Prop) (f : A -> list B) l : (forall x, In x l -> Forall P (f x)) -> Forall P (flat_map f l).
+  Proof.
+    induction l as [|x r IH]; intros H; [constructor|]. cbn [flat_map]. apply Forall_app. split; [apply H; left; reflexivity|].
+    apply IH. intros y Hy. apply H. right. exact Hy.
+  Qed.
+
+  Lemma enum_has_in items e : enum_has items e = true -> exists p, In p items /\ fst p = e.
+  Proof.
+    induction items as [|[k v] r IH]; cbn [enum_has]; [discriminate|]. intros H. apply orb_true_iff in H. destruct H as [H|H].
+    - apply MergeProofs.bytes_eqb_eq in H. exists (k, v). split; [left; reflexivity | exact H].
+    - destruct (IH H) as (p & Hp & E). exists p. split; [right; exact Hp | exact E].
+  Qed.
+
+  Lemma def_ok_tagged spec t : fold_right (fun t P => match t with Tagged tag _ _ i => ident_text tag /\ def_ok i end /\ P) True spec ->
+    In t spec -> ident_text (tg_tag t) /\ def_ok (tg_item t).
+  Proof.
+    induction spec as [|x r IH]; [intros _ []|]. cbn [fold_right]. intros [H1 H2] [<-|Hin]; [destruct x; exact H1 | apply IH; assumption].
+  Qed.
+  Lemma def_ok_struct l t : fold_right (fun t P => def_ok t /\ P) True l -> In t l -> def_ok t.
+  Proof. induction l as [|x r IH]; [intros _ []|]. cbn [fold_right]. intros [H1 H2] [<-|Hin]; [exact H1 | apply IH; assumption]. Qed.
+
+  Section TT.
+    Hypothesis Hfl : floats_wf.
+    Variable n : nat.
+    Hypothesis IHn : forall ty g k, gdepth g <= n -> def_ok ty -> conf ty g k -> Forall token_text (ftoks g).
+
+    Lemma all_tt item : def_ok item -> forall l k, conf_all ftab conf item l k -> Forall (fun g => gdepth g <= n) l -> Forall token_text (flat_map ftoks l).
+    Proof.
+      intros Hd l k H. induction H as [k|g gs k H1 H2 IH]; intros Hl; [constructor|]. inversion Hl; subst. cbn [flat_map].
+      apply Forall_app. split; [eapply IHn; eassumption | apply IH; assumption].
+    Qed.
+    Lemma seq_tt : forall tys l k, conf_seq ftab conf tys l k -> fold_right (fun t P => def_ok t /\ P) True tys ->
+      Forall (fun g => gdepth g <= n) l -> Forall token_text (flat_map ftoks l).
+    Proof.
+      intros tys l k H. induction H as [k|ty g tys gs k H1 H2 IH]; intros Hd Hl; [constructor|]. inversion Hl; subst. cbn [flat_map fold_right] in *.
+      destruct Hd as [D1 D2]. apply Forall_app. split; [eapply IHn; eassumption | apply IH; assumption].
+    Qed.
+    Lemma item_tt spec i k : fold_right (fun t P => match t with Tagged tag _ _ i => ident_text tag /\ def_ok i end /\ P) True spec ->
+      conf_item conf spec i k -> info_depth i <= n -> Forall token_text (itoks i).
+    Proof.
+      intros Hd H Hi. destruct H as [tag uid line so eo isb t g binc bline k0 Hfind Hblk Hconf].
+      destruct (find_tagged_in _ _ _ Hfind) as (Hin & Htag). destruct (def_ok_tagged spec t Hd Hin) as (Hid & Hdi). rewrite Htag in Hid.
+      cbn [info_depth] in Hi. pose proof (make_block_depth g binc bline) as Q.
+      assert (Hg : Forall token_text (ftoks g)) by (eapply IHn; [lia | exact Hdi | exact Hconf]).
+      unfold IfdataFollowProofs.itoks. cbn [gmap item_toks]. rewrite ftoks_make_block.
+      destruct isb.
+      - constructor; [reflexivity|]. constructor; [exact Hid|]. apply Forall_app. split; [exact Hg|].
+        constructor; [reflexivity|]. constructor; [exact Hid | constructor].
+      - constructor; [exact Hid | exact Hg].
+    Qed.
+    Lemma items_tt spec : fold_right (fun t P => match t with Tagged tag _ _ i => ident_text tag /\ def_ok i end /\ P) True spec ->
+      forall its k, conf_items ftab conf spec its k -> Forall (fun i => info_depth i <= n) its -> Forall token_text (flat_map itoks its).
+    Proof.
+      intros Hd its k H. induction H as [k|i its k H1 H2 IH]; intros Hl; [constructor|]. inversion Hl; subst. cbn [flat_map].
+      apply Forall_app. split; [eapply item_tt; eassumption | apply IH; assumption].
+    Qed.
+  End TT.
+
+  Theorem conforming_tokens_are_well_formed : floats_wf -> forall n ty g k, gdepth g <= n -> def_ok ty -> conf ty g k -> Forall token_text (ftoks g).
+  Proof.
+    intros Hfl. induction n as [|n IH]; intros ty g k Hd Hok Hconf; [pose proof (gdepth_pos g); lia|].
+    destruct Hconf as [ty variant t off z hex k Hi Hr|off bits k Hok'|off bits k Hok'|dim off str k|items off e k He
+                      |item dim l k Hne Hlen Hall|items inc l k Hall|item l k Hall Hnn Hst|spec tg k Hits Hst Hre|spec k Hst|spec t k Hit].
+    - cbn [IfdataFollowProofs.ftoks]. constructor; [apply integer_text_is_number_token | constructor].
+    - cbn [IfdataFollowProofs.ftoks]. constructor; [apply Hfl; left; exact Hok' | constructor].
+    - cbn [IfdataFollowProofs.ftoks]. constructor; [apply Hfl; right; exact Hok' | constructor].
+    - cbn [IfdataFollowProofs.ftoks]. constructor; [exists str; reflexivity | constructor].
+    - cbn [IfdataFollowProofs.ftoks]. constructor; [|constructor]. cbn [def_ok] in Hok. destruct (enum_has_in items e He) as (p & Hp & <-).
+      rewrite Forall_forall in Hok. exact (Hok p Hp).
+    - cbn [IfdataFollowProofs.ftoks gdepth def_ok] in *. exact (all_tt n IH item Hok l k Hall (list_depths l n Hd)).
+    - cbn [IfdataFollowProofs.ftoks gdepth def_ok] in *. exact (seq_tt n IH items l k Hall Hok (list_depths l n Hd)).
+    - cbn [IfdataFollowProofs.ftoks gdepth def_ok] in *. exact (all_tt n IH item Hok l k Hall (list_depths l n Hd)).
+    - change (IfdataFollowProofs.ftoks ftab (GTaggedStruct tg)) with (flat_map item_toks (group_order (flat_map (fun kv => map (ti_toks ftab) (snd kv)) tg))).
+      rewrite ftoks_tagged. cbn [def_ok] in Hok. apply (items_tt n IH spec Hok (witems tg) k Hits).
+      apply Forall_forall. intros i Hi. pose proof (witems_depth tg i Hi). lia.
+    - change (IfdataFollowProofs.ftoks ftab (GTaggedUnion [])) with (@nil shape). constructor.
+    - assert (Et : IfdataFollowProofs.ftoks ftab (GTaggedUnion [(ti_tag t, [t])]) = itoks (ti_info t))
+        by (destruct t; cbn; rewrite ?app_nil_r; reflexivity).
+      rewrite Et. cbn [def_ok] in Hok. apply (item_tt n IH spec (ti_info t) k Hok Hit).
+      assert (Ew : witems [(ti_tag t, [t])] = [ti_info t]) by (destruct t; reflexivity).
+      pose proof (witems_depth [(ti_tag t, [t])] (ti_info t) ltac:(rewrite Ew; left; reflexivity)) as Q. cbn [gdepth] in Hd, Q. lia.
   Qed.
 
   Lemma units_ok' (us : list unit) : Forall ws_ok us -> Forall token_text (usnd us) -> Forall unit_ok us.
@@ -284,6 +382,21 @@ Section Text.
     exists toks, g', s'. split; [exact E1|]. split; [exact Ep|]. split; [|exact Ev].
     pose proof (adv_after _ _ _ A) as Q. cbn [ps_after s init_state] in Q. rewrite Etoks in Q. apply app_inv_head in Q. rewrite <- Q. exact Mrest.
   Qed.
+
+  (** the same with the premise on the DEFINITION: its tags and enumeration items are identifiers *)
+  Corollary ifdata_content_roundtrip_of_definition f F ty g tag indent c :
+    floats_wf -> def_ok ty -> ident_text tag ->
+    conf ty g [(TEnd, end_text); (TIdentifier, tag)] -> gdepth g <= f -> ty_depth ty <= F -> c_fileid c = O ->
+    exists toks g' s',
+      tokenize_core 0 (gifd_write ftab names f g indent ++ bytes_of " /end " ++ tag) = TOk toks /\
+      parse_ifdata_item F ty c (init_state toks false 1 ftab) = (ROk g', s') /\
+      map shape_of (ps_after s') = [(TEnd, end_text); (TIdentifier, tag)] /\ ev g' = ev g.
+  Proof.
+    intros Hfl Hdef Htag Hconf Hd HF Hc.
+    exact (ifdata_content_roundtrip f F ty g tag indent c Hconf Hd HF Hc (conforming_tokens_are_well_formed Hfl f ty g _ Hd Hdef Hconf) Htag).
+  Qed.
 End Text.
 Print Assumptions gifd_write_units.
 Print Assumptions ifdata_content_roundtrip.
+Print Assumptions conforming_tokens_are_well_formed.
+Print Assumptions ifdata_content_roundtrip_of_definition.
